@@ -1,5 +1,6 @@
 import GeoVerif.Model.GeodLengths
 import GeoVerif.Series.GeodSeries
+import GeoVerif.Series.GeodTrig
 import GeoVerif.Spec.RealInst
 import Mathlib.Tactic.Ring
 /-!
@@ -69,5 +70,23 @@ theorem a1_table : checkA1 = true := by decide +kernel
 theorem c1_table : ((List.range N).all fun i => checkC1 (i + 1)) = true := by decide +kernel
 theorem a2_table : checkA2 = true := by decide +kernel
 theorem c2_table : ((List.range N).all fun i => checkC2 (i + 1)) = true := by decide +kernel
+
+/-! ### I4: the area table `C4coeff` (bivariate in `n`, `ε`) -/
+
+/-- the layout of `C4coeff`/`C4f` consumes the table exactly -/
+theorem table_sizes4 : c4Size = Gen.GeodSeries.C4coeff.length := by decide +kernel
+
+/-- `t(x) = x + √(1 + 1/x)·asinh √x = x + (1 + x) h(x)` where `h(x) = asinh(√x)/√(x(1 + x))` is the power-series solution
+    of `2x(1 + x) h′ + (1 + 2x) h = 1`: the coefficients `hCoef` used below satisfy this ODE (mod `x^{N+1}`); no table involved -/
+theorem t_series : checkH (N + 1) = true := by decide +kernel
+
+/-- **C4** (Karney 2013, eq. 59–63; `computeI4` of `maxima/geod.mac`).  `I4(σ) = Σ_{l=0}^{N−1} C4_l cos((2l + 1)σ)` and
+    `−dI4/dσ = [t(e′²) − t(k² sin²σ)]/(e′² − k² sin²σ) · sin σ/2` with `e′² = 4n/(1 − n)²`, `k² = 4ε/(1 − ε)²`.  Certified:
+    `[Σ_l (2l + 1) C4_l sin((2l + 1)σ)] · (e′² − k² sin²σ) = [t(e′²) − t(k² sin²σ)] · sin σ/2`
+    as trigonometric polynomials in `σ` with coefficients in `ℚ[n, ε]` modulo total degree `N + 1`.  The factor
+    `e′² − k² sin²σ` has lowest-order part `4(n − ε sin²σ) ≠ 0` and the coefficient ring is an integral domain, so
+    the relation determines the first factor modulo total degree `N` — the truncation `jtaylor(·, n, eps, N−1)` of the
+    generator; all table entries have total degree `≤ N − 1`: a full certificate of the 77-entry (N = 6) table. -/
+theorem c4_table : checkC4 = true := by decide +kernel
 
 end GeoVerif.Props.C03
